@@ -18,7 +18,7 @@ RULE = ("programs: explicit enumeration (ptgfam.c01_family), every variant valid
 ORACLE = 1
 
 
-def task_level_legs(ctx):
+def prepare(ctx):
     quick = ctx.tier == 'quick'
     progs, refused = ptgfam.c01_family(ctx.tier)
     neg, _ = ptgfam.negstep_family()
@@ -36,28 +36,33 @@ def task_level_legs(ctx):
     else:
         hs, fr, kn = ptgrun.make_jobs(progs + neg, exes, ORACLE, False, '0,1:1,2:3', grid, (1, 2, 3, 4, 8), 2, 6, 3, 75, 200)
     ctx.notes.append('%d programs, %d variants; %d variants refused by the reference interpreter' % (len(progs), sum(len(p.variants) for p in progs), refused))
-    R.run_jobs(hs, 'hsched-all-task-orders')
-    R.run_jobs(fr, 'free-running-configuration-box')
-    R.run_jobs(kn, 'recorded-findings (negative steps, index-array non-range parameters)', stop_on_violation=False)
-    ctx.notes += R.notes
-    R.cleanup()
+    return R, hs, fr, kn
 
 
 def check(ctx):
     import time
     from concurrent.futures import ThreadPoolExecutor
-    # the il executables (ptgpp + instrumented cc) are built in the background while the task-level legs run
-    pool = ThreadPoolExecutor(1)
+    # Order of the legs: the exhaustive task-level leg (hsched, deterministic), then the instruction-level legs (il, deterministic,
+    # replayable), then the free-running configuration box (configurations, not schedules: a failure there may not replay).
+    # The il executables (ptgpp + instrumented cc) are built in the background meanwhile.
     t2 = time.time()
-    fut = pool.submit(il.build, ctx)
-    if not os.environ.get('VERIF_IL_ONLY'):          # debugging aid: VERIF_IL_ONLY=1 runs the il legs alone (no evidence written)
-        task_level_legs(ctx)
-    else:
+    fut = ThreadPoolExecutor(1).submit(il.build, ctx)
+    il_only = bool(os.environ.get('VERIF_IL_ONLY'))   # debugging aid: VERIF_IL_ONLY=1 runs the il legs alone (no evidence written)
+    if il_only:
         os.environ.setdefault('VERIF_NO_EVIDENCE', '1')
+    else:
+        R, hs, fr, kn = prepare(ctx)
+        R.run_jobs(hs, 'hsched-all-task-orders')
     B = fut.result()
     ctx.notes.append('il legs: executables (ptgpp + instrumented cc, 5 programs x 2 back-ends) ready %.1fs after the start of the check' % (time.time() - t2))
     if not ctx.violations:
         il.run(ctx, B, c01_only=True)
+    if not il_only:
+        R.run_jobs(fr, 'free-running-configuration-box')
+        if kn:
+            R.run_jobs(kn, 'recorded-findings (negative steps, index-array non-range parameters)', stop_on_violation=False)
+        ctx.notes += R.notes
+        R.cleanup()
     return ctx.finish(RULE + '; ' + il.RULE, il.ASSUME + ['task bodies and runtime actions atomic at the task level (primitives: E1 checks)',
                              'single process, shared memory; placement always rank 0',
                              'reference interpreter (engine/rt/ptgir.py) defines the valid-program semantics'])
